@@ -40,6 +40,19 @@ class Skip(Exception):
     """op degenerates to a counted no-op in this state"""
 
 
+class _Idx:
+    """an index object: anything with __index__ is a legal list index"""
+
+    def __init__(self, v):
+        self.v = v
+
+    def __index__(self):
+        return self.v
+
+    def __repr__(self):
+        return "Idx(%d)" % self.v
+
+
 class Boom(Exception):
     """the fault injected by an operand that fails while it is consumed"""
 
@@ -447,6 +460,10 @@ class World:
         order = self.order[ii]
         model = list(order)
         a = op.get("a", 0)
+        # the same position as an index object (legal wherever an int is)
+        aa = _Idx(a) if op.get("ix") and isinstance(a, int) else a
+        if aa is not a:
+            self.tags.append("index-object:list." + f)
 
         def expect_exc(fn, exc_type, what):
             """run fn; return the exception (or None)"""
@@ -505,7 +522,7 @@ class World:
                 return
             else:
                 pos = a if -50 < a < 50 else 0
-                lst.insert(pos, mo)
+                lst.insert(_Idx(pos) if op.get("ix") else pos, mo)
                 tmp = list(model)
                 tmp.insert(pos, -1)
                 if same:
@@ -577,7 +594,7 @@ class World:
                 want.append(m)
             settle(want)
         elif f == "delitem":
-            e = expect_exc(lambda: lst.__delitem__(a), IndexError, "del")
+            e = expect_exc(lambda: lst.__delitem__(aa), IndexError, "del")
             if -len(model) <= a < len(model):
                 if e is not None:
                     self.failf("refine:list.delitem-raises", repr(e))
@@ -598,7 +615,7 @@ class World:
                 raise Skip()
             m = ms[0]
             mo = self.obj("mod", m)
-            e = expect_exc(lambda: lst.__setitem__(a, mo), IndexError, "setitem")
+            e = expect_exc(lambda: lst.__setitem__(aa, mo), IndexError, "setitem")
             if -len(model) <= a < len(model):
                 if e is not None:
                     self.failf("refine:list.setitem-raises", "%r" % (e,))
@@ -677,7 +694,7 @@ class World:
         elif f == "pop":
             has_arg = op.get("arg", False)
             try:
-                got = lst.pop(a) if has_arg else lst.pop()
+                got = lst.pop(aa) if has_arg else lst.pop()
                 e = None
             except Exception as ex:  # noqa
                 e = ex
